@@ -135,6 +135,30 @@ def _hands_back(e, cur):
     return False
 
 
+def eof_fuel(run, model, rule="R12.2"):
+    """Parser::eof does not go through the fuel-limited peek()/nth() (evaluated under C12 as R12.2 and under C04 as R04.28)"""
+    # the end-of-input test must be the real one: once fuel runs out peek()/nth() answer Eof for every position, so an eof() that goes
+    # through them ends file() (and every grammar loop) with input left over
+    meths = {g.name: g for g in model.fns(PARSER) if g.body is not None and g.impl == "Parser"}
+    fuel = {n_ for n_, g in meths.items() if any(x["k"] == "Field" and x.get("member") == "fuel" for x in S.walk(g.body))}
+    reads = {n_ for n_ in fuel if n_ not in ("advance", "new")}
+    changed = True
+    while changed:
+        changed = False
+        for n_, g in meths.items():
+            if n_ in reads or n_ in ("advance", "new"):
+                continue
+            if any(c["k"] == "MethodCall" and c["method"] in reads and S.is_path(c["recv"], "self") for c in S.walk(g.body)):
+                reads.add(n_)
+                changed = True
+    run.floor("positive control: fuel-limited Parser methods (peek, nth, at, …)", len(reads), 4)
+    if "eof" not in meths:
+        raise AnalysisIncomplete("Parser::eof not found")
+    run.ob(rule, "Parser::eof|independent of the stuck-parser fuel", "eof" not in reads, site(PARSER, meths["eof"].node["sp"]),
+           f"fuel-limited methods: {sorted(reads)}",
+           witness="~130 stacked prefix operators exhaust the fuel inside one expression: eof() answers true, file() stops and the remaining tokens never enter the tree")
+
+
 def r12_2(run, model):
     run.rule("R12.2", "every token enters the tree exactly once: each builder.token(..) is followed by `cursor += 1` in the same block, "
                       "nothing else moves the cursor, Parser::advance pushes exactly one Advance per skipped token, and file() loops "
@@ -181,26 +205,7 @@ def r12_2(run, model):
         run.ob("R12.2", "file()|nothing but the end of input ends the top-level loop", not outs, site(FILE, (outs or [top[-1]])[0]["sp"]),
                f"{len(outs)} `break` / `return` in the loop over the items of a file",
                witness="a file with more than 64 syntax errors: the loop gives up, the remaining tokens get no Advance event and the tree is a proper prefix of the input")
-    # the end-of-input test must be the real one: once fuel runs out peek()/nth() answer Eof for every position, so an eof() that goes
-    # through them ends file() (and every grammar loop) with input left over
-    meths = {g.name: g for g in model.fns(PARSER) if g.body is not None and g.impl == "Parser"}
-    fuel = {n_ for n_, g in meths.items() if any(x["k"] == "Field" and x.get("member") == "fuel" for x in S.walk(g.body))}
-    reads = {n_ for n_ in fuel if n_ not in ("advance", "new")}
-    changed = True
-    while changed:
-        changed = False
-        for n_, g in meths.items():
-            if n_ in reads or n_ in ("advance", "new"):
-                continue
-            if any(c["k"] == "MethodCall" and c["method"] in reads and S.is_path(c["recv"], "self") for c in S.walk(g.body)):
-                reads.add(n_)
-                changed = True
-    run.floor("positive control: fuel-limited Parser methods (peek, nth, at, …)", len(reads), 4)
-    if "eof" not in meths:
-        raise AnalysisIncomplete("Parser::eof not found")
-    run.ob("R12.2", "Parser::eof|independent of the stuck-parser fuel", "eof" not in reads, site(PARSER, meths["eof"].node["sp"]),
-           f"fuel-limited methods: {sorted(reads)}",
-           witness="~130 stacked prefix operators exhaust the fuel inside one expression: eof() answers true, file() stops and the remaining tokens never enter the tree")
+    eof_fuel(run, model, "R12.2")
     closes = S.norm_ws(run.facts.text(FILE, f.body["sp"]))
     run.ob("R12.2", "file()|FILE node closed", "MySyntaxKind::FILE" in closes and "p.close(" in closes, site(FILE, f.node["sp"]), "file() opens and closes a FILE node")
 
